@@ -4,7 +4,7 @@
    tick): quantifying over all h quantifies over every interleaving of the ingest goroutine
    with the watermark/trigger goroutine at lock granularity. *)
 From Coq Require Import Lia Sorted.
-From SV Require Import Spec.QuietSpec Proofs.QuietProofs.
+From SV Require Import Spec.QuietSpec Proofs.QuietProofs Spec.WinSpec Proofs.TumblingPTSpec.
 From SV Require Import Model.Tumbling Proofs.TumblingProofs Proofs.TumblingComplete Proofs.TumblingPT.
 
 (* every batch is a size-aligned half-open interval [k*size,(k+1)*size) and holds only rows that
@@ -61,6 +61,15 @@ Theorem C01_processing_time_membership : forall c h,
     forall r, In r (b_rows b) -> b_start b <= rts r < b_end b.
 Proof. intros c h Hs Hok. exact (pt_membership c Hs h pst0 (InvP_0 c) Hok). Qed.
 Print Assumptions C01_processing_time_membership.
+
+(* the executable processing-time checker the harness applies to the real window's trace (Spec/WinSpec.v chk_C01_pt:
+   aligned interval holding only its own rows, only known rows, no row twice, increasing intervals, every row of the
+   interval seen so far is in the batch, no row stamped inside an interval already reported) accepts every trace of
+   the model under the ticker's schedule *)
+Theorem C01_processing_time_model_passes_checker : forall c h,
+  0 < size c -> sched_ok c pst0 h -> NoDup (pids h) -> chk_C01_pt c (snd (prun c pst0 h)) = None.
+Proof. intros c h Hs. exact (pt_model_passes_checker c Hs h). Qed.
+Print Assumptions C01_processing_time_model_passes_checker.
 
 (* delivery liveness across a channel overflow: on every trace, once the trigger code found the watermark channel
    empty, a tick happened and the channel was drained again with no Add in between, the last watermark received is
